@@ -174,8 +174,9 @@ func dumpGlobals(h HarnessSpec, names []string, overlay map[string][]byte) (map[
 
 // BigV models a math/big.Int as a mathematical integer: a constant or (integer mode) a linear form.
 type BigV struct {
-	c   *big.Int
-	lin *Lin
+	c    *big.Int
+	lin  *Lin
+	cell *Obj // shared-storage mode: the value lives in this cell; struct copies of the big.Int share it
 }
 
 func isBigIntType(t types.Type) bool {
